@@ -17,7 +17,7 @@ CLAIMS = {
              'sorted only when empty (FRESH); every order-sensitive reader goes through the freshened, locked index '
              '(ORDERED-READ); the sort is stable with key (start,end,enforce) derived from the public mutator\'s '
              'parameters and Pre<Normal<Post (SORTKEY); mutation needs &mut (W-MUT compile-fail witness). NOT decided: '
-             'the splice loops (copy/emit/consume arithmetic, clamping). Added: every slice bound in source()/rope() is clamped to the inner length (CLAMP) and both splice implementations share one position skeleton (SIBLING-SPLICE); the arithmetic itself remains undecided.',
+             'the splice loops (copy/emit/consume arithmetic, clamping). Added: every slice bound in source()/rope() is clamped to the inner length (CLAMP) and both splice implementations share one position skeleton (SIBLING-SPLICE); the arithmetic itself remains undecided. Round 4: SIBLING-SPLICE also requires the copy cursor to be max(cursor, replacement end) ("everything up to its end counts as consumed").',
         technique='MIR post-dominator / dominator / def-use rules over resolved callees and field accesses + '
                   'compile-fail witness',
         design_ref='§5 C05'),
@@ -28,7 +28,7 @@ CLAIMS = {
              'ones (cover columns and final_source) (KEY); cached maps and the memoised hash are write-once — only '
              'readers and first-writers (VacantEntry::insert / Entry::or_insert*) touch the map cache, the cache fields '
              'are never reassigned (WRITEONCE); memo cells are used through get/get_or_init/clone only and every initialiser '
-             'reads data fields only (MEMO). NOT decided: that replay from (cached map + rope) attributes like the wrapped source. Added: both map collectors (map() and the cache-filling tee) feed every mapping to the encoder unconditionally (ENCODE-ALL), a necessary condition of replay transparency; content views forward (DELEG). Round 3: the cache is never traversed, only read under the caller\'s key (KEY); MEMO covers every OnceLock/OnceCell cell; MEMO-RESET.',
+             'reads data fields only (MEMO). NOT decided: that replay from (cached map + rope) attributes like the wrapped source. Added: both map collectors (map() and the cache-filling tee) feed every mapping to the encoder unconditionally (ENCODE-ALL), a necessary condition of replay transparency; content views forward (DELEG). Round 3: the cache is never traversed, only read under the caller\'s key (KEY); MEMO covers every OnceLock/OnceCell cell; MEMO-RESET. Round 4: ENC-DEDUP — the cached map is produced by an encoder that does not swallow differing segments.',
         technique='who-may-call / receiver-type allow-list over resolved callees, def-use key provenance on MIR',
         design_ref='§5 C10'),
     'C14': dict(
@@ -46,7 +46,7 @@ CLAIMS = {
              'the map cache, anywhere in the crate); the sorted-flag/sorted-index publication pair is written data-before-flag '
              '(FRESH) and read flag-before-data, including by Clone which copies the pair (PUBLISH-ORDER); all source types are '
              'Send+Sync by auto traits and mutation needs &mut (witnesses), so data-race freedom of the safe code is the '
-             'compiler\'s. NOT decided: sequential consistency of results in general, deadlock freedom with re-entrant callbacks. Round 3: LOCKSCOPE — the sorted-index guard is never live across a call into a source or a caller-supplied callback (a structural necessary condition of the no-deadlock clause).',
+             'compiler\'s. NOT decided: sequential consistency of results in general, deadlock freedom with re-entrant callbacks. Round 3: LOCKSCOPE — the sorted-index guard is never live across a call into a source or a caller-supplied callback (a structural necessary condition of the no-deadlock clause). Round 4: LOCKSCOPE also covers any trait method invoked on a value of the wrapped source\'s type parameter (Hash / PartialEq of the child under the guard).',
         technique='who-may-call over resolved callees, dominator ordering of atomic flag vs. guarded data on MIR, compile witnesses',
         design_ref='§5 C18'),
     'C20': dict(
@@ -54,7 +54,7 @@ CLAIMS = {
         text='Static, for all pairs of values: every data field that `==` compares is fed to the hasher, with named exemptions '
              '(SourceMapSource::name per the statement; fields constant in every constructor) (HASHCOVER); hash cones contain no '
              'address/TypeId/random/time/thread input, no hash-map iteration and construct only FxHasher (HASHDET); the memoised '
-             'hash is a function of the data only (MEMO). NOT decided: absence of accidental collisions, prefix-freeness. Added: HASHALL (no skipped elements in container hashes); RESET/FRESH/PUBLISH-ORDER are registered here too because the hash of a ReplaceSource goes through the sorted accessor. Round 3b: EQ-ALLPATHS registered here as well (a == that accepts early makes unequal values collide by definition).',
+             'hash is a function of the data only (MEMO). NOT decided: absence of accidental collisions, prefix-freeness. Added: HASHALL (no skipped elements in container hashes); RESET/FRESH/PUBLISH-ORDER are registered here too because the hash of a ReplaceSource goes through the sorted accessor. Round 3b: EQ-ALLPATHS registered here as well (a == that accepts early makes unequal values collide by definition). HASH-IN-EQ registered here as well.',
         technique='field-access-set comparison of Eq vs Hash cones; forbidden-callee scan over resolved callees',
         design_ref='§5 C20'),
     'C12': dict(
@@ -63,7 +63,7 @@ CLAIMS = {
              'alphabet, the 256-entry decoder table is its exact inverse with two distinct separator codes and one invalid code '
              '(TABLES, const-evaluated by the compiler, 320 entries); every byte any writer can put into an encoder buffer is a '
              'base64 digit, "," or ";" (ALPHABET, sound over-approximation over all writers incl. helper functions and closures). '
-             'NOT decided: VLQ arithmetic, relative-field state, skip rules, the line-only encoder, round-trip equality. Added: LINE-RESET — the decoder resets the running column whenever it advances the line, the full encoder resets its column state whenever it writes a semicolon. Round 3: ENC-FIRST-MAPPED (the line-only encoder takes state from a segment\'s line only when the segment is mapped).',
+             'NOT decided: VLQ arithmetic, relative-field state, skip rules, the line-only encoder, round-trip equality. Added: LINE-RESET — the decoder resets the running column whenever it advances the line, the full encoder resets its column state whenever it writes a semicolon. Round 3: ENC-FIRST-MAPPED (the line-only encoder takes state from a segment\'s line only when the segment is mapped). Round 4: ENC-DEDUP (the "same original, skip" shortcut compares every per-segment state it records), ENC-OMIT (a tracked field is written as a delta or skipped only after the equality test with the state: no constant digits for an uncompared field), ENCODER-TOTAL (no arithmetic panic in the encoders).',
         technique='compiler const-evaluation of the codec tables + constant byte-set dataflow into the encoder buffers',
         design_ref='§5 C12'),
     'C15': dict(
@@ -72,7 +72,7 @@ CLAIMS = {
              'accepts (plus constant "version"), each bound to its namesake field (JSON-NAMES, read from the derived impls\' MIR '
              'and FIELDS constant), and through TryFrom every field is rebuilt from the raw field its own key is read into '
              '(JSON-FLOW) — so each field survives a round trip by name; several fields share a type, so a swap would compile. '
-             'NOT decided: escaping, parser totality, value equality after the round trip (simd-json/serde behaviour). Added: Option fields are skipped by Option::is_none only (JSON-SKIP: a present-but-empty value survives); the from_* cones touch no static / thread-local state (JSON-PURE). Round 3: raw fields of one type are converted by one call skeleton (JSON-SIBLING); IOERR for SourceMap::to_writer.',
+             'NOT decided: escaping, parser totality, value equality after the round trip (simd-json/serde behaviour). Added: Option fields are skipped by Option::is_none only (JSON-SKIP: a present-but-empty value survives); the from_* cones touch no static / thread-local state (JSON-PURE). Round 3: raw fields of one type are converted by one call skeleton (JSON-SIBLING); IOERR for SourceMap::to_writer. Round 4: the raw fields feeding sources / sourcesContent / names have nullable entries (part of JSON-SIBLING).',
         technique='constant/def-use extraction from derived Serialize/Deserialize MIR; field-flow through TryFrom',
         design_ref='§5 C15'),
     'C17': dict(
@@ -83,7 +83,7 @@ CLAIMS = {
              'has no recursion and its only loop consumes a slice iterator (DECODER-TOTAL; dev and, in thorough, release '
              'configuration); SourceMap::from_json/from_slice/from_reader add no panic site of their own and propagate every error '
              '(JSON-ENTRY; simd-json itself assumed total). NOT decided: panic-freedom of the streaming cone (≈250 arithmetic asserts, '
-             'indexing on map-supplied lines/indices) — reading found real panics there for wild maps; no discharge analysis is in reach. Added: CLAMP — ReplaceSource::source()/rope() slice the inner text only with bounds clamped to its length (replacement positions beyond the end are in the documented domain). Round 4: INDEX-GUARDED — forward abstract interpretation of every body in the zone domain (difference constraints over integer locations and container lengths; guards, resize/growth loops, len()-derived indices, closure entry facts, widening) proves `index < len` for 52 of the 70 `container[usize]` accesses and MIR bounds checks of the crate; the other 18 are listed with the invariant they rely on (grouped by element type, counted) and any additional unproven access is reported. Decides the upper bound only (not `x - 1` underflow, not range slicing / char boundaries).',
+             'indexing on map-supplied lines/indices) — reading found real panics there for wild maps; no discharge analysis is in reach. Added: CLAMP — ReplaceSource::source()/rope() slice the inner text only with bounds clamped to its length (replacement positions beyond the end are in the documented domain). Round 4: INDEX-GUARDED — forward abstract interpretation of every body in the zone domain (difference constraints over integer locations and container lengths; guards, resize/growth loops, len()-derived indices, closure entry facts, widening) proves `index < len` for 52 of the 70 `container[usize]` accesses and MIR bounds checks of the crate; the other 18 are listed with the invariant they rely on (grouped by element type, counted) and any additional unproven access is reported. Decides the upper bound only (not `x - 1` underflow, not range slicing / char boundaries). ENCODER-TOTAL — every overflow-checked subtraction / addition / shift and every table index of the mappings encoders is discharged by the zone analysis (found F9: `current_original_line + 1` overflowed for a wild map, fixed as 7ac4a9a); one subtraction relies on the sorted-segments domain and is listed as assumed.',
         technique='interval/range discharge of MIR Assert terminators with guard provenance; loop/recursion census; panic-site census',
         design_ref='§5 C17'),
     'C07': dict(
@@ -101,7 +101,7 @@ CLAIMS = {
              'wrapped source": BoxSource (6 Source methods + stream_chunks) and CachedSource (5 content views) make exactly one Source '
              'call, the same-named method on the wrapped object with their own parameters in order, and return its result; ConcatSource\'s '
              'single-child fast paths and ReplaceSource::map forward likewise (DELEG D3). NOT decided: attribution equality of regrouped '
-             'trees, closing segments through boxed concats, empty-source neutrality. Added: STICKY (empty children cannot swallow a pending close) and ENCODE-ALL (the map recorded while streaming a CachedSource is the full map). Round 4: FORWARD-ALL — ConcatSource forwards every child notification on every path: a nested / cached composite child attributes like the flat concatenation (defect fixed as 988c728).',
+             'trees, closing segments through boxed concats, empty-source neutrality. Added: STICKY (empty children cannot swallow a pending close) and ENCODE-ALL (the map recorded while streaming a CachedSource is the full map). Round 4: FORWARD-ALL — ConcatSource forwards every child notification on every path: a nested / cached composite child attributes like the flat concatenation (defect fixed as 988c728). IDX registered here as well (wrappers translate name / source indices, never forward them raw).',
         technique='forwarding check over resolved trait callees, argument provenance and result flow on MIR',
         design_ref='§5 C13'),
     'C19': dict(
@@ -134,7 +134,7 @@ CLAIMS = {
         text='Static: the leaves the property rests on — every mapping an OriginalSource emits is the identity (original line/column are '
              'the very values reported as generated line/column, or both 0; source index 0; no name) and it announces exactly (0, its name '
              'field, Some(its own text)), field roles taken from the public constructor (IDENT). NOT decided: provenance through '
-             'Concat/Replace/Cached, statement-start resolution, columns=false attribution. Added: ConcatSource\'s pending-close flag is sticky (cleared only after a test that found it set, otherwise OR-carried), so an empty child cannot swallow the segment that un-maps following raw text (STICKY). Still NOT decided: position arithmetic of ReplaceSource\'s generated-end info (seeded C04-m2 is not detected). Round 4: FORWARD-ALL — no path through ConcatSource\'s chunk handler swallows a child\'s notification (found the closing-position defect of nested composites in final-source mode, fixed as 988c728).',
+             'Concat/Replace/Cached, statement-start resolution, columns=false attribution. Added: ConcatSource\'s pending-close flag is sticky (cleared only after a test that found it set, otherwise OR-carried), so an empty child cannot swallow the segment that un-maps following raw text (STICKY). Still NOT decided: position arithmetic of ReplaceSource\'s generated-end info (seeded C04-m2 is not detected). Round 4: FORWARD-ALL — no path through ConcatSource\'s chunk handler swallows a child\'s notification (found the closing-position defect of nested composites in final-source mode, fixed as 988c728). ENC-OMIT — the line-only encoder emits its constant "same file, next line" form only after comparing the file.',
         technique='def-use equality of aggregate operands on MIR',
         design_ref='§5 C04'),
     'C06': dict(
@@ -143,7 +143,7 @@ CLAIMS = {
              'either forwards the child numbering unchanged or renumbers through its tables, and every OriginalLocation it builds takes the index '
              'from the matching origin; a child-local index never leaks into a renumbered space (IDX: closure-, table- and adaptor-aware origin '
              'analysis); ReplaceSource advances the original column only under the content check (ADVANCE). NOT decided: positions, that the '
-             'translated entry is the right one beyond its numbering, the amount of the advance. Added: the guard\'s verdict is the content check\'s own result for that site, not a remembered one (ADVANCE freshness); a chunk delivered with the child\'s own location object counts as child-local for both index kinds (IDX forwarded). Round 4: FORWARD-ALL — ConcatSource forwards every child notification (or records a pending close) on every path.',
+             'translated entry is the right one beyond its numbering, the amount of the advance. Added: the guard\'s verdict is the content check\'s own result for that site, not a remembered one (ADVANCE freshness); a chunk delivered with the child\'s own location object counts as child-local for both index kinds (IDX forwarded). Round 4: FORWARD-ALL — ConcatSource forwards every child notification (or records a pending close) on every path. STICKY registered here as well (an empty child must not clear the pending close).',
         technique='index-space origin (taint-style) dataflow over MIR expression trees with closure capture and table summaries; guard provenance',
         design_ref='§5 C06'),
     'C08': dict(
@@ -151,7 +151,7 @@ CLAIMS = {
         text='Static: all four (columns, final) streaming variants of a map apply sourceRoot, announce the enumeration index of the very '
              'iteration and the content stored under it (ROOT); announcement loops complete before any point that can deliver a mapped chunk, '
              'and variants that never announce names overwrite the name index with None before every emission (EAGER); the dispatch reaches a '
-             'text-carrying variant whenever final_source = false (TEXT). NOT decided: the segment walk (active-mapping state machine, cut-offs). Added: the line-only variants advance their per-line cursor from a segment only where the segment is known to have an original (FIRST-MAPPED). Still NOT decided: the active-mapping state machine of the column variants (seeded C08-m2 is not detected). Round 3b: ROOT also requires sourceRoot to be applied verbatim (no normalisation calls on the root string).',
+             'text-carrying variant whenever final_source = false (TEXT). NOT decided: the segment walk (active-mapping state machine, cut-offs). Added: the line-only variants advance their per-line cursor from a segment only where the segment is known to have an original (FIRST-MAPPED). Still NOT decided: the active-mapping state machine of the column variants (seeded C08-m2 is not detected). Round 3b: ROOT also requires sourceRoot to be applied verbatim (no normalisation calls on the root string). Round 4: ENC-DEDUP — re-encoding by an enclosing source does not swallow a segment that differs in name.',
         technique='sibling cross-check of announcer call arguments, loop/dominator ordering, SCCP on MIR',
         design_ref='§5 C08'),
     'C09': dict(
@@ -159,7 +159,7 @@ CLAIMS = {
         text='Static: the index-table discipline of the combined-map combinator — both index kinds are renumbered and both emitting '
              'aggregates take source/name indices only from the announced (global) numbering or tables filled from it; outer/inner local '
              'indices are used as keys only (IDX); each of its six de-duplication inserts stores len() and is followed by the announcement of '
-             'that value (PAIR). NOT decided: the binary search, identity-column adjustment, name matching, fallback semantics. Added: an announced fresh index is paired with an insertion into the same de-duplication map (PAIR converse); outer-name lookups that can reach an inner-mapped location are dominated by the name-vs-original-text comparison (NAMECHECK). Round 3: KEYSPACE and SIDES (translation tables are keyed in one numbering; tables handed to one helper belong to one child stream).',
+             'that value (PAIR). NOT decided: the binary search, identity-column adjustment, name matching, fallback semantics. Added: an announced fresh index is paired with an insertion into the same de-duplication map (PAIR converse); outer-name lookups that can reach an inner-mapped location are dominated by the name-vs-original-text comparison (NAMECHECK). Round 3: KEYSPACE and SIDES (translation tables are keyed in one numbering; tables handed to one helper belong to one child stream). Round 4: CTOR-VERBATIM — SourceMapSource constructors store the remove_original_source request as given.',
         technique='index-space origin dataflow + post-dominator pairing on MIR',
         design_ref='§5 C09'),
     'C11': dict(
